@@ -221,9 +221,39 @@ def odd_names(row):
     return bad
 
 
+def expected_collisions(row):
+    """expected= adding a parameter spelt like the names the generated wrapper uses internally (with and without a
+    parameter of the wrapped function already spelt so): the added parameter is in the own signature and a call giving
+    every parameter by keyword reaches the wrapper."""
+    from boltons import funcutils
+    sig = row["sig"]
+    if row["mode"] != "plain" or sig["star"] or sig["dstar"]:
+        return []
+    bad = []
+    for names, add in ((NAME, "_call"), (ODD, "__call"), (ODD, "_func"), (NAME, "_func")):
+        f = make_func(sig, False, False, NAME=names)
+        if add in inspect.signature(f).parameters:
+            continue
+
+        def wrapper(*a, **kw):
+            return ("reached-wrapper", len(a) + len(kw))
+        try:
+            w = funcutils.wraps(f, expected=[add])(wrapper)
+            params = inspect.signature(w, follow_wrapped=False).parameters
+            if add not in params or set(params) - {add} != set(inspect.signature(f).parameters):
+                bad.append(("expected=%r" % add, "signature", sorted(params)))
+                continue
+            r = w(**{n: 1 for n in params})
+            if r != ("reached-wrapper", len(params)):
+                bad.append(("expected=%r" % add, "forwarded-arguments", repr(r)[:100]))
+        except Exception as ex:
+            bad.append(("expected=%r" % add, "call-raised:" + core.exc_name(ex), str(ex)[:200]))
+    return bad
+
+
 def run_row(row):
     from boltons import funcutils
-    bad = equalish_defaults(row) + injected_lists(row) + stacked(row) + odd_names(row)
+    bad = equalish_defaults(row) + injected_lists(row) + stacked(row) + odd_names(row) + expected_collisions(row)
     sig, mode = row["sig"], row["mode"]
     want_params = [[NAME[p[0]], p[1], p[2]] for p in row["wparams"]]
     seen = row["seen"]
